@@ -52,6 +52,10 @@ impl DataFragSubmessage {
             let fragments_in_submessage = u16::try_read_from_bytes(&mut slice, endianness)?;
             let fragment_size = u16::try_read_from_bytes(&mut slice, endianness)?;
             let data_size = u32::try_read_from_bytes(&mut slice, endianness)?;
+            // Fragment numbers start at 1 and a fragment has at least one byte (RTPS 8.3.7.3.3)
+            if fragment_starting_num == 0 || fragments_in_submessage == 0 || fragment_size == 0 {
+                return Err(RtpsMessageError::InvalidData);
+            }
 
             let end_position = if submessage_header.submessage_length() == 0 {
                 data.len()
